@@ -81,7 +81,7 @@ PROPS = {
         "level": "exploration",
         "runs": {"quick": 240, "thorough": 6000},
         "budget_s": {"quick": 400, "thorough": 3000},
-        "rule": "one evaluation = one check on a proof computed under a scripted RNG: (a) the call log of the RNG seam during Prover::prove is exactly 14 x fill_bytes(64) and no draw happens before circuit synthesis finished; (b) for each of the 14 draws the proof is recomputed with that single draw replaced by draw + D and the first proof element that may move is compared with D x [mask slot] computed from SRS points: a wire slot moves exactly one of the four wire commitments by D[X^(n+i) - X^i] (i in 0,1), a z slot leaves the wire commitments unchanged and moves z_comm by D[X^(n+i) - X^i] (i in 0,1,2), a quotient slot leaves wire and z commitments unchanged and moves two adjacent quotient-share commitments by +D[X^n] and -D[1]; the map draw -> slot must be a bijection onto the 14 slots (draw order not prescribed); (c) with that bijection, the witness snapshot of the proving run and beta, gamma, z re-derived by the reference transcript, the 8 wire / z evaluations equal the barycentric evaluation of the unmasked witness column (or of the permutation accumulator recomputed from the compiled wiring) plus the prescribed mask (b0 + b1 x (+ b2 x^2)) Z_H(x) at x = z or z*omega; (d) two proofs of one witness under scripts that differ in every draw share none of the 11 commitments and none of the 8 wire / z evaluations; (e) a script in which one draw is zero (64 zero bytes) still yields exactly 14 draws and a proof that is a function of the script alone (two runs byte-identical). Gate counts include 2^k and 2^k-1 (no unused rows), domains up to 2^12 (2^10 on every 48th run, 2^11 on every 96th, 2^12 on every 120th; far more often in the thorough tier). Non-trivial = every substitution, opening and disjointness check.",
+        "rule": "one evaluation = one check on a proof computed under a scripted RNG: (a) the call log of the RNG seam during Prover::prove is exactly 14 x fill_bytes(64) and no draw happens before circuit synthesis finished; (b) for each of the 14 draws the proof is recomputed with that single draw replaced by draw + D and the first proof element that may move is compared with D x [mask slot] computed from SRS points: a wire slot moves exactly one of the four wire commitments by D[X^(n+i) - X^i] (i in 0,1), a z slot leaves the wire commitments unchanged and moves z_comm by D[X^(n+i) - X^i] (i in 0,1,2), a quotient slot leaves wire and z commitments unchanged and moves two adjacent quotient-share commitments by +D[X^n] and -D[1]; the map draw -> slot must be a bijection onto the 14 slots (draw order not prescribed); (c) with that bijection, the witness snapshot of the proving run and beta, gamma, z re-derived by the reference transcript, the 8 wire / z evaluations equal the barycentric evaluation of the unmasked witness column (or of the permutation accumulator recomputed from the compiled wiring) plus the prescribed mask (b0 + b1 x (+ b2 x^2)) Z_H(x) at x = z or z*omega; (d) two proofs of one witness under scripts that differ in every draw share none of the 11 commitments and none of the 8 wire / z evaluations; (e) a script in which one draw is zero (64 zero bytes) still yields exactly 14 draws and a proof that is a function of the script alone (two runs byte-identical); (f) the same for a script in which one draw repeats the 64 bytes of the draw before it (a stuck RNG): 14 draws, two runs byte-identical, and the repeated draw is used as drawn. Gate counts include 2^k and 2^k-1 (no unused rows), domains up to 2^12 (2^10 on every 48th run, 2^11 on every 96th, 2^12 on every 120th; far more often in the thorough tier). Non-trivial = every substitution, opening and disjointness check.",
         "assumptions": ["SRS points are read from PublicParameters::to_var_bytes(); RM-verify's transcript re-derives the challenges", "domain sizes n <= 64 mostly, 128..4096 in a share of the runs"],
     },
     "C07": {
